@@ -23,7 +23,7 @@ def run(ctx):
     n = tier_n(ctx, 24, 400)
     rng = ctx.rng("e2e/authtrace")
     scen = [e2e_props.FAMILIES["forgery"](rng, i) for i in range(n)]
-    traces = e2e.run_many(scen, workers=int(os.environ.get("VERIF_E2E_WORKERS", "8")))
+    traces = e2e.run_many(scen, workers=int(os.environ.get("VERIF_E2E_WORKERS", "6")))
     bad = []
     kinds = {}
     total_ops = 0
